@@ -1300,7 +1300,10 @@ impl Database {
 
         let needs_old_row_for_secondary_index = secondary_indexes
             .iter()
-            .any(|(_, col_indices)| col_indices.iter().any(|idx| modified_col_indices.contains(idx)));
+            .any(|(_, col_indices)| col_indices.iter().any(|idx| modified_col_indices.contains(idx)))
+            || unique_columns
+                .iter()
+                .any(|(col_idx, _, _)| modified_col_indices.contains(col_idx));
 
         let unique_col_indices: Vec<usize> = columns
             .iter()
@@ -1767,7 +1770,7 @@ impl Database {
 
                 let mut index_btree = BTree::new(&mut *index_storage, index_root_page)?;
 
-                for (_row_key, _old_value, new_row_values, old_row_values, _old_toast) in
+                for (row_key, _old_value, new_row_values, old_row_values, _old_toast) in
                     &rows_to_update
                 {
                     if let Some(old_value) = old_row_values.get(*col_idx) {
@@ -1782,15 +1785,8 @@ impl Database {
                         if !new_value.is_null() {
                             key_buf.clear();
                             Self::encode_value_as_key(new_value, &mut key_buf);
-                            if let Some(pk_idx) = columns
-                                .iter()
-                                .position(|c| c.has_constraint(&Constraint::PrimaryKey))
-                            {
-                                if let Some(OwnedValue::Int(pk_val)) = new_row_values.get(pk_idx) {
-                                    let row_id_bytes = (*pk_val as u64).to_be_bytes();
-                                    let _ = index_btree.insert(&key_buf, &row_id_bytes);
-                                }
-                            }
+                            // index entries point at the row key, exactly as INSERT writes them
+                            let _ = index_btree.insert(&key_buf, row_key);
                         }
                     }
                 }
@@ -1807,6 +1803,10 @@ impl Database {
             if !any_modified {
                 continue;
             }
+            let is_unique_index = table_def
+                .indexes()
+                .iter()
+                .any(|idx| idx.name() == index_name.as_str() && idx.is_unique());
             if file_manager.index_exists(schema_name, table_name, index_name) {
                 let index_storage_arc =
                     file_manager.index_data_mut(schema_name, table_name, index_name)?;
@@ -1820,43 +1820,44 @@ impl Database {
 
                 let mut index_btree = BTree::new(&mut *index_storage, index_root_page)?;
 
-                for (_row_key, _old_value, new_row_values, old_row_values, _old_toast) in
+                for (row_key, _old_value, new_row_values, old_row_values, _old_toast) in
                     &rows_to_update
                 {
-                    let old_all_non_null = col_indices
-                        .iter()
-                        .all(|&idx| old_row_values.get(idx).is_some_and(|v| !v.is_null()));
-
-                    if old_all_non_null {
+                    // same key layout as INSERT. Non-unique index: every indexed column
+                    // (NULLs included) followed by the row key. Unique index: the columns
+                    // only, and only when none is NULL. The entry's value is the row key.
+                    let old_indexed = !is_unique_index
+                        || col_indices
+                            .iter()
+                            .all(|&idx| old_row_values.get(idx).is_some_and(|v| !v.is_null()));
+                    if old_indexed {
                         key_buf.clear();
                         for &col_idx in col_indices {
                             if let Some(value) = old_row_values.get(col_idx) {
                                 Self::encode_value_as_key(value, &mut key_buf);
                             }
                         }
+                        if !is_unique_index {
+                            key_buf.extend_from_slice(row_key);
+                        }
                         let _ = index_btree.delete(&key_buf);
                     }
 
-                    let new_all_non_null = col_indices
-                        .iter()
-                        .all(|&idx| new_row_values.get(idx).is_some_and(|v| !v.is_null()));
-
-                    if new_all_non_null {
+                    let new_indexed = !is_unique_index
+                        || col_indices
+                            .iter()
+                            .all(|&idx| new_row_values.get(idx).is_some_and(|v| !v.is_null()));
+                    if new_indexed {
                         key_buf.clear();
                         for &col_idx in col_indices {
                             if let Some(value) = new_row_values.get(col_idx) {
                                 Self::encode_value_as_key(value, &mut key_buf);
                             }
                         }
-                        if let Some(pk_idx) = columns
-                            .iter()
-                            .position(|c| c.has_constraint(&Constraint::PrimaryKey))
-                        {
-                            if let Some(OwnedValue::Int(pk_val)) = new_row_values.get(pk_idx) {
-                                let row_id_bytes = (*pk_val as u64).to_be_bytes();
-                                let _ = index_btree.insert(&key_buf, &row_id_bytes);
-                            }
+                        if !is_unique_index {
+                            key_buf.extend_from_slice(row_key);
                         }
+                        let _ = index_btree.insert(&key_buf, row_key);
                     }
                 }
             }
